@@ -6,7 +6,7 @@ from harness import gen_seq
 from runner import Case, CaseSet
 
 ID = 'C14'
-OBLIGATIONS = ['Props/C14.v', 'Props/Tie/parser_tie.v', 'Props/Tie/minipy_validseq_tie.v']
+OBLIGATIONS = ['Props/C14.v', 'Props/Tie/parser_tie.v', 'Props/Tie/minipy_validseq_tie.v', 'Props/Tie/minipy_parser_tie.v']
 RULE = ('random sequences (N 1..120) x random layouts (FASTA header or not, line lengths, 10-residue spacing, position '
         'numbers, blank/whitespace lines, \\n / \\r\\n / \\r terminators, trailing newline or not, optional final "*", leading '
         'tabs/blanks) and then every single-character corruption class (each ASCII byte 0..127) at random positions of small '
